@@ -13,6 +13,14 @@ Inductive arc_new_kind := NewBoxArcInnerCount1 | NewUnknown.
 (** how the last owner releases the block *)
 Inductive release_kind := RelBoxFromRawInner | RelUnknown.
 
+(** what a raw pointer that is turned back into a handle or borrow was derived from *)
+Inductive prov :=
+| PParam          (* a parameter of the enclosing (unsafe, public) function: the caller's pointer, passed on *)
+| PStored         (* the pointer a handle or borrow stores, possibly cast, masked through an integer or moved by an offset *)
+| PRef            (* a reference to the value: no provenance over the count in front of the value *)
+| PUnknownProv.
+Definition prov_full (p : prov) : bool := match p with PParam | PStored => true | _ => false end.
+
 Inductive repr_kind := RC | RTransparent | RRust | RUnknownRepr.
 Inductive field_kind := FPhantom | FNonNull | FUsize | FArc | FParam | FOther.
 Record struct_decl := mkStruct {
